@@ -121,6 +121,8 @@ static int propC05, propC10, propC11, propC12;
    with the present position of the element that access touched (the model tracks it through insertions and
    removals), so that a state reached WITH a stale remembered position is not merged with the same contents
    reached without one. */
+static int viewassign = 3;     /* assign from an iterable that has no len/get (a Filter view): bit 1 Array (handled by the pinned
+                                  library), bit 2 Tuple (appended instead of replacing until fix b438e9d) */
 static int light;
 static int lastidx = -1;
 static int lastpos = -1;       /* where the element touched by that access is NOW (-1: gone / unknown): differs from lastidx once
@@ -577,14 +579,19 @@ static void cleanup(void) {
 enum { T_PUSH, T_POP, T_APPEND, T_SET, T_PUSHAT, T_POPAT, T_REM, T_RESIZE, T_SORT, T_COPY, T_CONCAT, T_ASSIGN,
        T_B_COPY, T_B_ASSIGN_FROM_A, T_A_ASSIGN_FROM_B, T_B_DEL, T_B_PUSH, T_B_POP, T_SWAP,
        T_AL_PUSH, T_AL_APPEND, T_AL_SET, T_AL_PUSHAT, T_AL_CONCAT_SELF, T_AL_ASSIGN_SELF,
-       T_P_POISON, T_P_CONCAT, T_GET, T_MEM,
-       T_F_IDX, T_F_REM_ABSENT, T_F_WRONG, T_F_NULL, T_F_NULLIDX, T_F_CONCAT_NULL, T_F_ASSIGN_NULL, T_F_STACK };
+       T_P_POISON, T_P_CONCAT, T_GET, T_MEM, T_ASSIGN_VIEW,
+       T_F_IDX, T_F_REM_ABSENT, T_F_WRONG, T_F_NULL, T_F_NULLIDX, T_F_CONCAT_NULL, T_F_ASSIGN_NULL, T_F_BADSRC, T_F_STACK };
 enum { FO_GET, FO_SET, FO_POPAT, FO_PUSHAT, FO_PUSH, FO_APPEND };
 static const char* FON[] = { "get", "set", "pop_at", "push_at", "push", "append" };
 enum { IC_PAST, IC_NEGPAST, IC_PLUSM, IC_MINUSM, IC_MAX, IC_MIN, IC_N };
 static const char* ICN[] = { "one-past-end", "one-before-start", "+1000000", "-1000000", "INT64_MAX", "INT64_MIN" };
 enum { SO_PUSH, SO_POP, SO_PUSHAT, SO_POPAT0, SO_POPATLAST, SO_CONCAT, SO_RESIZE, SO_ASSIGN, SO_N };
 static const char* SON[] = { "push", "pop", "push_at(v,0)", "pop_at(0)", "pop_at(-1)", "concat", "resize(len-1)", "assign" };
+
+enum { BS_ASSIGN_INT, BS_ASSIGN_STR, BS_ASSIGN_FLOAT, BS_CONCAT_INT, BS_CONCAT_STR, BS_CONCAT_FLOAT, BS_ASSIGN_FILTER, BS_N };
+static const char* BSN[] = { "assign(A,$I(5))", "assign(A,$S(\"xy\"))", "assign(A,$F(1.0))", "concat(A,$I(5))", "concat(A,$S(\"xy\"))", "concat(A,$F(1.0))", "assign(A,filter(A,f))" };
+static const char* BSL[] = { "assign/Int-source", "assign/String-source", "assign/Float-source", "concat/Int-source", "concat/String-source", "concat/Float-source", "assign/Filter-view-source" };
+static var bs_accept_all(var x) { return x; }
 
 struct opd { int t, a, b; int64_t i; char name[48]; };
 static struct opd ops[1024]; static int nops;
@@ -626,6 +633,10 @@ static void make_alphabet(void) {
   addop(T_COPY, 0, 0, 0, "A=copy(A)");
   for (int s = 0; s < nsrc; s++) for (int k = 0; k < nk; k++) { srcname(s, sn, sizeof sn); addop(T_CONCAT, k, s, 0, "concat(%s%s)", KN[k], sn); }
   for (int s = 0; s < nsrc; s++) for (int k = 0; k < nk; k++) { srcname(s, sn, sizeof sn); addop(T_ASSIGN, k, s, 0, "assign(A,%s%s)", KN[k], sn); }
+  if ((kindA == K_ARRAY && (viewassign & 1) && !probe) || (kindA == K_TUPLE && (viewassign & 2))) {
+    char sn2[24];
+    for (int sq = 0; sq < nsrc; sq++) { srcname(sq, sn2, sizeof sn2); addop(T_ASSIGN_VIEW, 0, sq, 0, "assign(A,filter(array%s,all))", sn2); }
+  }
   if (light) {
     for (int i = 0; i < maxlen; i++) for (int sgn = 0; sgn < 2; sgn++) {
       int64_t ix = sgn ? -(int64_t)(i + 1) : i;
@@ -664,6 +675,9 @@ static void make_alphabet(void) {
     for (int f = FO_GET; f <= FO_PUSHAT; f++) addop(T_F_NULLIDX, f, 0, 0, "%s(NULL index)", FON[f]);
     addop(T_F_CONCAT_NULL, 0, 0, 0, "concat(NULL)");
     addop(T_F_ASSIGN_NULL, 0, 0, 0, "assign(A,NULL)");
+    /* sources that can be neither indexed nor iterated (Int, String - it has Len but no get -, Float),
+       and for List (which copies through len + get) a Filter view, which has neither */
+    for (int w = 0; w < BS_N; w++) if (w != BS_ASSIGN_FILTER || kindA == K_LIST) addop(T_F_BADSRC, w, 0, 0, "%s", BSN[w]);
     if (kindA != K_TUPLE && !probe) {
       /* a Tuple is an untyped list of references: no element type to violate, and storing a NULL
          reference is not clearly illegal - not treated as must-fail.  Probe accepts any argument. */
@@ -1061,6 +1075,19 @@ static int apply(int op) {
     lastpos = -1;
     return VF_OK; }
 
+  case T_ASSIGN_VIEW: {
+    /* the source is a Filter view (iterable, but neither len nor get) over an Array: the result must be the view's items */
+    int sq = o->b;
+    setop("assign/from-filter-view");
+    var src = build(K_ARRAY, srcseq[sq], srclen[sq]);
+    keep_temp(src, 0);
+    e = VF_CATCH(assign(CA, filter(src, $(Function, bs_accept_all))));
+    if (e) return raised(e, "assign from a Filter view");
+    MA.n = srclen[sq];
+    for (int i = 0; i < srclen[sq]; i++) MA.v[i] = srcseq[sq][i];
+    lastpos = -1;
+    return VF_OK; }
+
   /* ---- aliasing: the argument is an element of the receiver ---- */
   case T_AL_PUSH: case T_AL_APPEND: case T_AL_PUSHAT: case T_AL_SET: {
     int k = o->a, i = (int)o->i, isset = o->t == T_AL_SET, isat = o->t == T_AL_PUSHAT;
@@ -1246,6 +1273,40 @@ static int apply(int op) {
     fail_begin();
     e = VF_CATCH(assign(CA, NULL));
     return fail_end(e, ValueError, ValueError, ValueError, "assign(A, NULL)");
+  case T_F_BADSRC: {
+    setop("%s", BSL[o->a]);
+    /* white-box view before: an assign that is refused must not have touched the container at all */
+    struct { var type; size_t tsize, nitems, aux; var p0, p1; } w0, w1;
+    memset(&w0, 0, sizeof w0); memset(&w1, 0, sizeof w1);
+#if WB
+    if (kindA == K_ARRAY) { struct Array* a = CA; w0.type = a->type; w0.tsize = a->tsize; w0.nitems = a->nitems; w0.aux = a->nslots; w0.p0 = a->data; }
+    if (kindA == K_LIST)  { struct List* l = CA;  w0.type = l->type; w0.tsize = l->tsize; w0.nitems = l->nitems; w0.p0 = l->head; w0.p1 = l->tail; }
+#endif
+    if (kindA == K_TUPLE) w0.p0 = ((struct Tuple*)CA)->items;
+    fail_begin();
+    switch (o->a) {
+    case BS_ASSIGN_INT:    e = VF_CATCH(assign(CA, $I(5))); break;
+    case BS_ASSIGN_STR:    e = VF_CATCH(assign(CA, $S("xy"))); break;
+    case BS_ASSIGN_FLOAT:  e = VF_CATCH(assign(CA, $F(1.0))); break;
+    case BS_CONCAT_INT:    e = VF_CATCH(concat(CA, $I(5))); break;
+    case BS_CONCAT_STR:    e = VF_CATCH(concat(CA, $S("xy"))); break;
+    case BS_CONCAT_FLOAT:  e = VF_CATCH(concat(CA, $F(1.0))); break;
+    default:               e = VF_CATCH(assign(CA, filter(CA, $(Function, bs_accept_all)))); break;
+    }
+    int r = fail_end(e, ClassError, TypeError, ValueError, o->name);
+    if (r != VF_OK) return r;
+    if (o->a <= BS_ASSIGN_FLOAT || o->a == BS_ASSIGN_FILTER) {
+#if WB
+      if (kindA == K_ARRAY) { struct Array* a = CA; w1.type = a->type; w1.tsize = a->tsize; w1.nitems = a->nitems; w1.aux = a->nslots; w1.p0 = a->data; }
+      if (kindA == K_LIST)  { struct List* l = CA;  w1.type = l->type; w1.tsize = l->tsize; w1.nitems = l->nitems; w1.p0 = l->head; w1.p1 = l->tail; }
+#endif
+      if (kindA == K_TUPLE) w1.p0 = ((struct Tuple*)CA)->items;
+      if (memcmp(&w0, &w1, sizeof w0) != 0) {
+        vf_violation(L("white-box-view-changed"), NULL, "%s raised %s and the API-visible contents are unchanged, but the container's own fields (element type, size, store/links) are not what they were", o->name, vf_exc_name(e));
+        return VF_BAD;
+      }
+    }
+    return VF_OK; }
   case T_F_WRONG: case T_F_NULL: {
     int isnull = o->t == T_F_NULL;
     if ((o->a == FO_SET || o->a == FO_PUSHAT) && n == 0) return VF_SKIP;   /* index 0 must be valid: only the element is bad */
@@ -1752,6 +1813,7 @@ int main(int argc, char** argv) {
   propC12 = strcmp(prop, "C12") == 0;
   propC11 = strcmp(prop, "C11") == 0;
   light = vf_param_is("oracle", "light", "full");
+  viewassign = (int)vf_param_i("viewassign", 3);
   maxlen = (int)vf_param_i("maxlen", 4); if (maxlen > MAXL) maxlen = MAXL; if (maxlen < 2) maxlen = 2;
   nvals = (int)vf_param_i("nvals", 3); if (nvals > 6) nvals = 6; if (nvals < 1) nvals = 1;
   two = (int)vf_param_i("two", 0);
